@@ -69,6 +69,7 @@ func psum[T any](f func(T) Z, s []T, n int) Z { return 0 }
 func isstatus(e error) bool             { return e != nil }
 func lastrand() int64                   { return 0 }
 func ncalls(name string) int            { return len(name) }
+func lastval(name string) Z             { return Z(len(name)) }
 func haskey[K comparable, V any](m map[K]V, k K) bool { _, ok := m[k]; return ok }
 func statuscode(e error) uint32         { return 0 }
 `
